@@ -188,6 +188,86 @@ var ruleParseResult = &Rule{
 				continue
 			}
 			calls := callsTo(fn, pParse)
+			// the whole job handed to an unexported helper of the package
+			// (`return path.scan(src)`, `return parse(src, ErrPath)`): the
+			// entry hands it its input (and the sentinel, when the helper takes
+			// the sentinel as a parameter) and answers with its results; the
+			// helper is then held to the entry's obligations
+			var sentParam *ssa.Parameter
+			if len(calls) == 0 && ws.kind != "must" {
+				var h *ssa.Function
+				okDeleg := true
+				var hcalls []*ssa.Call
+				for _, c := range p.allCalls(fn) {
+					sc := c.Call.StaticCallee()
+					if sc == nil || sc == fn || c.Call.IsInvoke() || fnPkgPath(sc) != pkgPath || sc.Object() == nil || sc.Object().Exported() || len(callsTo(sc, pParse)) == 0 {
+						continue
+					}
+					if h != nil && h != sc {
+						okDeleg = false
+					}
+					h = sc
+					hcalls = append(hcalls, c)
+				}
+				if h != nil && okDeleg && h.Signature.Results().Len() == fn.Signature.Results().Len() {
+					// every return of the entry with a call of the helper in
+					// play hands the helper's results back; the input goes in
+					inputOK, resultsOK := true, true
+					for _, c := range hcalls {
+						in := false
+						for _, a := range c.Call.Args {
+							if _, isRecv := a.(*ssa.Parameter); isRecv && a == ssa.Value(fn.Params[0]) && fn.Signature.Recv() != nil {
+								continue
+							}
+							if derivesFromParam(a) {
+								in = true
+							}
+						}
+						if !in {
+							inputOK = false
+						}
+						// the sentinel as an argument
+						for i, a := range c.Call.Args {
+							if i < len(h.Params) && isErrorType(h.Params[i].Type()) {
+								if g := loadedGlobal(a); g != nil && g.Pkg != nil && g.Pkg.Pkg.Name()+"."+g.Name() == ws.sentinel {
+									sentParam = h.Params[i]
+								} else {
+									resultsOK = false
+								}
+							}
+						}
+						used := false
+						for _, r := range returnsOf(fn) {
+							all := true
+							for ri, rv := range r.Results {
+								cc, idx := callOf(rv)
+								if cc == nil {
+									if sc2, isCall := stripConvPlain(rv).(*ssa.Call); isCall && len(r.Results) == 1 {
+										cc, idx = sc2, 0
+									}
+								}
+								if cc != c || idx != ri {
+									all = false
+								}
+							}
+							if all {
+								used = true
+							}
+						}
+						if !used {
+							resultsOK = false
+						}
+					}
+					key := "path." + ws.fn + " hands the job to " + h.Name()
+					if inputOK && resultsOK {
+						out.ok(key, p.pos(fn.Pos()), fnName(fn), "its input (and sentinel) go in, the helper's results come back; the helper is held to the entry's obligations")
+						fn = h
+						calls = callsTo(fn, pParse)
+					} else {
+						sentParam = nil
+					}
+				}
+			}
 			// a helper of the package that wraps parser.Parse (whole input in,
 			// (tree, nil) or (nil, error wrapping the sentinel) out) stands
 			// for it; its error is then already wrapped
@@ -255,6 +335,9 @@ var ruleParseResult = &Rule{
 							e := p.shapeOf(res[len(res)-1])
 							key := fmt.Sprintf("path.%s on parse failure returns %s", ws.fn, e)
 							good := e.Kind == "errorf" && len(e.Sentinels) > 0 && e.Sentinels[0] == ws.sentinel && p.errorfMentions(e, errV)
+							if !good && sentParam != nil && e.Kind == "errorf" && p.errorfMentions(e, errV) && errorfWrapsFirst(res[len(res)-1], sentParam) {
+								good = true // the sentinel the entry handed in
+							}
 							if wrapped[c] != "" && wrapped[c] == ws.sentinel && stripConv(res[len(res)-1]) == errV {
 								good = true // the helper has wrapped it already
 							}
@@ -307,6 +390,30 @@ var ruleParseResult = &Rule{
 					out.viol("path."+ws.fn+" handles parse success", p.pos(c.Pos()), fnName(fn), "no exit is taken on the branch err == nil")
 				}
 			}
+			// the binary/text form has no "NULL" input: it never answers nil
+			// without having parsed (Scan may: a nil or empty column is a
+			// NULL path)
+			if ws.kind == "errorOnly" && strings.HasSuffix(ws.fn, "UnmarshalBinary") && len(calls) > 0 {
+				for _, er := range expandedReturns(fn) {
+					if !isNilConst(stripConv(er.Results[len(er.Results)-1])) {
+						continue
+					}
+					parsed := false
+					for _, c := range calls {
+						if ev := extractOf(c, 1); ev != nil {
+							if isNil, _ := nilFact(er.Facts, ev); isNil {
+								parsed = true
+							}
+						}
+					}
+					key := "path." + ws.fn + " answers nil only after a successful parse"
+					if parsed {
+						out.ok(key, p.pos(er.Instr.Pos()), fnName(fn), "behind err == nil of the parse")
+					} else {
+						out.viol(key, p.pos(er.Instr.Pos()), fnName(fn), "a return of nil that the parse does not precede: some input (the empty text) is accepted by the unmarshaler although Parse rejects it, and the Path it leaves behind holds no tree")
+					}
+				}
+			}
 			// every other non-nil error returned must wrap the sentinel or
 			// come from a sibling
 			if ws.kind == "errorOnly" {
@@ -315,6 +422,7 @@ var ruleParseResult = &Rule{
 					switch {
 					case e.Kind == "nil":
 					case e.Kind == "errorf" && len(e.Sentinels) > 0 && e.Sentinels[0] == ws.sentinel:
+					case e.Kind == "errorf" && sentParam != nil && errorfWrapsFirst(r.Results[len(r.Results)-1], sentParam):
 					case e.Kind == "call" && strings.Contains(e.Callee, "path.Path)."):
 					case e.Kind == "call" && wrapsWith(p, fn, r.Results[len(r.Results)-1], pParse, ws.sentinel):
 					default:
@@ -562,6 +670,23 @@ func recordsError(ins ssa.Instruction, lexT *types.Named) bool {
 				}
 			}
 		}
+	}
+	return false
+}
+
+// errorfWrapsFirst: v is fmt.Errorf whose first %w argument is the parameter q.
+func errorfWrapsFirst(v ssa.Value, q *ssa.Parameter) bool {
+	c, ok := stripConv(v).(*ssa.Call)
+	if !ok || calleeQualified(&c.Call) != "fmt.Errorf" || len(c.Call.Args) < 2 {
+		return false
+	}
+	args := errorfArgs(c.Call.Args[1])
+	verbs := formatVerbs(formatPrefix(c.Call.Args[0]))
+	for i, a := range args {
+		if a == nil || i >= len(verbs) || verbs[i] != 'w' {
+			continue
+		}
+		return stripConv(a) == ssa.Value(q)
 	}
 	return false
 }
